@@ -700,6 +700,67 @@ fn op_cbor_decode_compound(req: &Value) -> Value {
     }
 }
 
+/// C17: synthetic constants (unit given by parts, value n/d, tokens, description, source) through CBOR and back;
+/// every field and the unit's structure must survive, also through a generic CBOR value (canonical key order).
+fn op_c17_constants(req: &Value) -> Value {
+    let mut ok = 0u64;
+    let mut violations = Vec::new();
+    let mut count = 0u64;
+    for case in req["cases"].as_array().cloned().unwrap_or_default() {
+        count += 1;
+        let parts = parts_of(&case["parts"]);
+        let r = catch_unwind(|| -> Result<(), String> {
+            let unit: Compound = serde_cbor::value::from_value(serdert::compound_value(&parts).ok_or("bad key")?).map_err(|e| format!("unit from parts: {e}"))?;
+            let n = vharness::obs::parse_bigint(case["n"].as_str().unwrap_or("0")).ok_or("n")?;
+            let d = vharness::obs::parse_bigint(case["d"].as_str().unwrap_or("1")).ok_or("d")?;
+            let c = anything::Constant {
+                source: case["source"].as_u64(),
+                tokens: strs(&case["tokens"]).into_iter().map(|t| t.into_boxed_str()).collect(),
+                description: case["description"].as_str().unwrap_or("").into(),
+                value: Rational::new(n, d),
+                unit,
+            };
+            let bytes = serde_cbor::to_vec(&c).map_err(|e| format!("encode: {e}"))?;
+            let generic: serde_cbor::Value = serde_cbor::from_slice(&bytes).map_err(|e| format!("generic decode: {e}"))?;
+            let bytes2 = serde_cbor::to_vec(&generic).map_err(|e| format!("generic encode: {e}"))?;
+            for (label, b) in [("direct", &bytes), ("through a generic CBOR value", &bytes2)] {
+                let back: anything::Constant = serde_cbor::from_slice(b).map_err(|e| format!("decode ({label}): {e}"))?;
+                if back.source != c.source || back.tokens != c.tokens || back.description != c.description {
+                    return Err(format!("{label}: source/tokens/description changed"));
+                }
+                if back.value != c.value {
+                    return Err(format!("{label}: value changed: wrote {}/{} read {}/{}", c.value.numer(), c.value.denom(), back.value.numer(), back.value.denom()));
+                }
+                if back.unit != c.unit {
+                    return Err(format!("{label}: unit changed: wrote `{}` read `{}`", c.unit, back.unit));
+                }
+                let mut got = vharness::obs::unit_parts(&back.unit)?;
+                got.sort();
+                let mut want = parts.clone();
+                want.sort();
+                if got != want {
+                    return Err(format!("{label}: unit structure changed: wrote {:?} read {:?}", want, got));
+                }
+            }
+            Ok(())
+        });
+        match r {
+            Ok(Ok(())) => ok += 1,
+            Ok(Err(e)) => {
+                if violations.len() < 20 {
+                    violations.push(json!({"case": case, "what": e}));
+                }
+            }
+            Err(p) => {
+                if violations.len() < 20 {
+                    violations.push(json!({"case": case, "what": format!("panic: {}", vharness::panic_message(&p))}));
+                }
+            }
+        }
+    }
+    json!({"count": count, "ok": ok, "violation_count": count - ok, "violations": violations})
+}
+
 fn op_db(st: &mut State, req: &Value) -> Value {
     let mode = req["mode"].as_str().unwrap_or("in_memory");
     st.db = None;
@@ -858,6 +919,7 @@ fn handle(st: &mut State, req: &Value) -> Value {
         "c08_list" => op_c08_list(req),
         "c17_compounds" => op_c17_compounds(req),
         "c17_rationals" => op_c17_rationals(req),
+        "c17_constants" => op_c17_constants(req),
         "compound_rt" => op_compound_rt(req),
         "cbor_decode_compound" => op_cbor_decode_compound(req),
         "shipped" => op_shipped(req),
